@@ -99,11 +99,17 @@ func DeleteBundle(repo string, stores context2.Stores, bundleID string, opts ...
 	// 2. remove all file entry index files for that bundle
 	indexFiles := bundle.BundleEntriesFileCount
 	if indexFiles == 0 && options.ignoreBundleError {
-		var e error
-		for i := uint64(0); e == nil; i++ {
-			// delete everything until an error is found
+		// the number of index files is unknown: remove them for as long as some exist.
+		// NOTE: the outcome of Delete cannot tell that (some stores report no error when deleting a missing key).
+		for i := uint64(0); ; i++ {
 			archivePathToBundleFileList := model.GetArchivePathToBundleFileList(repo, bundleID, i)
-			e = store.Delete(context.Background(), archivePathToBundleFileList)
+			exists, e := store.Has(context.Background(), archivePathToBundleFileList)
+			if e != nil || !exists {
+				break
+			}
+			if e = store.Delete(context.Background(), archivePathToBundleFileList); e != nil {
+				break
+			}
 		}
 	} else {
 		for i := uint64(0); i < indexFiles; i++ {
